@@ -1,0 +1,185 @@
+// MIT License
+//
+// Copyright (c) 2022-2026 GoAkt Team
+//
+// Permission is hereby granted, free of charge, to any person obtaining a copy
+// of this software and associated documentation files (the "Software"), to deal
+// in the Software without restriction, including without limitation the rights
+// to use, copy, modify, merge, publish, distribute, sublicense, and/or sell
+// copies of the Software, and to permit persons to whom the Software is
+// furnished to do so, subject to the following conditions:
+//
+// The above copyright notice and this permission notice shall be included in all
+// copies or substantial portions of the Software.
+//
+// THE SOFTWARE IS PROVIDED "AS IS", WITHOUT WARRANTY OF ANY KIND, EXPRESS OR
+// IMPLIED, INCLUDING BUT NOT LIMITED TO THE WARRANTIES OF MERCHANTABILITY,
+// FITNESS FOR A PARTICULAR PURPOSE AND NONINFRINGEMENT. IN NO EVENT SHALL THE
+// AUTHORS OR COPYRIGHT HOLDERS BE LIABLE FOR ANY CLAIM, DAMAGES OR OTHER
+// LIABILITY, WHETHER IN AN ACTION OF CONTRACT, TORT OR OTHERWISE, ARISING FROM,
+// OUT OF OR IN CONNECTION WITH THE SOFTWARE OR THE USE OR OTHER DEALINGS IN THE
+// SOFTWARE.
+
+//go:build verif
+
+package actor
+
+import (
+	"sort"
+	"unsafe"
+)
+
+// VerifItem is a tagged dummy schedulable for the verification harness. When it
+// is run by a real dispatcher worker, OnTurn (if set) is called with the worker
+// id and a function that re-enqueues an item on that worker's local ring
+// (worker.reschedule).
+type VerifItem struct {
+	ID     int
+	OnTurn func(workerID int, it *VerifItem, reschedule func(*VerifItem))
+}
+
+func (it *VerifItem) runTurn(w *worker) {
+	if it.OnTurn != nil {
+		it.OnTurn(w.id, it, func(x *VerifItem) { w.reschedule(x) })
+	}
+}
+
+// VerifReadyQueue exposes the unexported readyQueue to the verification harness.
+type VerifReadyQueue struct{ rq *readyQueue }
+
+// VerifNewReadyQueue builds a real readyQueue. The local rings are sorted by
+// address so that stealHalf's address-derived lock order equals worker-id order
+// (the rings are fresh and interchangeable), which makes replays deterministic.
+func VerifNewReadyQueue(workers int) *VerifReadyQueue {
+	rq := newReadyQueue(workers)
+	sort.Slice(rq.locals, func(i, j int) bool {
+		return uintptr(unsafe.Pointer(rq.locals[i])) < uintptr(unsafe.Pointer(rq.locals[j]))
+	})
+	return &VerifReadyQueue{rq: rq}
+}
+
+// Objs returns the pointers that identify the queue's hook sites: the
+// readyQueue itself followed by its local rings.
+func (v *VerifReadyQueue) Objs() []any {
+	out := []any{v.rq}
+	for _, l := range v.rq.locals {
+		out = append(out, l)
+	}
+	return out
+}
+
+func (v *VerifReadyQueue) Push(it *VerifItem)                  { v.rq.push(it) }
+func (v *VerifReadyQueue) PushLocal(worker int, it *VerifItem) { v.rq.pushLocal(worker, it) }
+func (v *VerifReadyQueue) Close()                              { v.rq.close() }
+
+// Take calls the real take; the item is nil when take returned (nil, false).
+func (v *VerifReadyQueue) Take(worker int) (*VerifItem, bool) {
+	s, ok := v.rq.take(worker)
+	if s == nil {
+		return nil, ok
+	}
+	return s.(*VerifItem), ok
+}
+
+// GlobalLen / ParkedCount / LocalLen are the package's own test accessors.
+func (v *VerifReadyQueue) GlobalLen() int          { return v.rq.globalLen() }
+func (v *VerifReadyQueue) ParkedCount() int        { return v.rq.parkedCount() }
+func (v *VerifReadyQueue) LocalLen(worker int) int { return v.rq.locals[worker].length() }
+
+// TryParkMu reports whether parkMu is free right now.
+func (v *VerifReadyQueue) TryParkMu() bool {
+	if v.rq.parkMu.TryLock() {
+		v.rq.parkMu.Unlock()
+		return true
+	}
+	return false
+}
+
+// TryLens returns the global ring length, the local ring lengths and the parked
+// counter, read under their mutexes; ok is false when a mutex is held right now.
+func (v *VerifReadyQueue) TryLens() (g int, ls []int, parked int, ok bool) {
+	rq := v.rq
+	if !rq.parkMu.TryLock() {
+		return 0, nil, 0, false
+	}
+	g, parked = rq.global.size, rq.parked
+	rq.parkMu.Unlock()
+	for _, q := range rq.locals {
+		if !q.mu.TryLock() {
+			return 0, nil, 0, false
+		}
+		ls = append(ls, q.size)
+		q.mu.Unlock()
+	}
+	return g, ls, parked, true
+}
+
+// VerifRQShape is an unsynchronised projection of the queue state.
+type VerifRQShape struct {
+	Global      []int   `json:"g"`
+	Locals      [][]int `json:"l"`
+	GlobalCount int     `json:"gc"`
+	LocalAtomic []int   `json:"la"`
+	Parked      int     `json:"pk"`
+	Closed      bool    `json:"cl"`
+	GlobalCap   int     `json:"gcap"`
+}
+
+func verifTag(s schedulable) int {
+	if s == nil {
+		return 0
+	}
+	if it, ok := s.(*VerifItem); ok {
+		return it.ID
+	}
+	return -1
+}
+
+// Shape reads the queue WITHOUT taking its mutexes: call it only while every
+// goroutine that can touch the queue is parked at a hook or finished.
+func (v *VerifReadyQueue) Shape() VerifRQShape {
+	rq := v.rq
+	sh := VerifRQShape{
+		Global:      []int{},
+		GlobalCount: int(rq.globalCount.Load()),
+		Parked:      rq.parked,
+		Closed:      rq.closed,
+		GlobalCap:   len(rq.global.buf),
+	}
+	g := &rq.global
+	for i := 0; i < g.size; i++ {
+		sh.Global = append(sh.Global, verifTag(g.buf[(g.head+i)%len(g.buf)]))
+	}
+	for _, q := range rq.locals {
+		l := []int{}
+		for i := 0; i < q.size; i++ {
+			l = append(l, verifTag(q.buf[(q.head+i)%localQueueCap]))
+		}
+		sh.Locals = append(sh.Locals, l)
+		sh.LocalAtomic = append(sh.LocalAtomic, int(q.sizeAtomic.Load()))
+	}
+	return sh
+}
+
+// VerifLocalQueueCap and VerifGlobalQueueInitialCap export the ring constants.
+const (
+	VerifLocalQueueCap         = localQueueCap
+	VerifGlobalQueueInitialCap = globalQueueInitialCap
+)
+
+// VerifDispatcher exposes the real dispatcher (real worker goroutines running
+// worker.run) to the verification harness.
+type VerifDispatcher struct{ d *dispatcher }
+
+func VerifNewDispatcher(workers int) *VerifDispatcher {
+	return &VerifDispatcher{d: newDispatcher(workers, dispatcherThroughput)}
+}
+
+// Obj identifies the dispatcher at the "worker.exit" hook.
+func (v *VerifDispatcher) Obj() any               { return v.d }
+func (v *VerifDispatcher) Start()                 { v.d.start() }
+func (v *VerifDispatcher) Schedule(it *VerifItem) { v.d.schedule(it) }
+func (v *VerifDispatcher) SignalStop()            { v.d.signalStop() }
+func (v *VerifDispatcher) Queue() *VerifReadyQueue {
+	return &VerifReadyQueue{rq: v.d.readyQueue}
+}
